@@ -19,9 +19,19 @@ RULE = ("accepted near-earth TLEs (e up to 0.4, any inclination, |B*| <= 0.003; 
         "+-7 days; correspondence: radius, rdotk, rfdotk, the three angles and the cartesian state model vs kep2xyz at 1e-11; "
         "oracle (no SGP4 re-implementation): velocity vs central difference of positions (0.15 %), distance within perigee/apogee "
         "radii +-40 km, r x v inclination within 0.05 deg, energy within 1 % of -mu/2a, and for drag-free sets the summary "
-        "period / perigee / semi-major axis vs the sampled trajectory; distinct = (tle, time)")
+        "period / perigee / semi-major axis vs the sampled trajectory; the strong-drag corner (perigee 220-300 km, e <= 0.01, "
+        "|B*| 0.0015-0.003 of both signs, 5-7 days from the epoch) and its control at 300-900 km; long time ARRAYS (lengths one short "
+        "of / at / one / two beyond multiples of 2^12 ... 2^18, odd lengths, 1-D and 2-D, both end points over up to +-7 days): "
+        "every element judged by band / energy / inclination / own-grid derivative, head / block boundaries / tail elements "
+        "against scalar calls; distinct = (tle, time)")
 ASSUMPTIONS = ["velocity = d/dt position, energy and the 40/30 km bands are physics of the analytic theory: measured, not proved",
-               "mu = XKE^2 * XKMPER^3 / 3600 (WGS-72), a = semi-major axis of the orbit summary"]
+               "mu = XKE^2 * XKMPER^3 / 3600 (WGS-72), a = semi-major axis of the orbit summary",
+               "strong-drag corner (perigee 220-300 km, |B*| 0.0015-0.003, 5-7 days): energy is taken against the summary a OR the "
+               "published model's a(t) (with the summary a alone the unchanged code is up to 4 % off: drag has moved a by that much), "
+               "and the velocity clause is judged within the modelled orbit's life time only (the model's a stays 100 km above the "
+               "surface from the epoch to the instant); outside it the unchanged code, like the published series, is 0.15-0.21 % off "
+               "just before the decay and hundreds of per cent off where answers re-appear beyond a refused interval: counted in the "
+               "evidence (drag_corner_outside_lifetime*, drag_corner_energy_epoch_a_beyond_1pct), not a verdict"]
 TRUSTED = ["model PV.Model.Sgp4.kep2xyz / shortPeriod / elements"]
 LEVEL_TEXT = ("Theorems over the reals: the orientation vectors U, V of kep2xyz are orthonormal, so |r| = r_k, r.v = r_k rdot_k, "
               "|v|^2 = rdot_k^2 + rfdot_k^2; r x v = r_k rfdot_k W with W_z = cos(xinc): the orbital-plane inclination is xinc, and "
@@ -249,6 +259,410 @@ def oracle(ctx):
             ctx.violation("summary_perigee", case, float(oe.perigee), "min distance - 6378 = %.3f km within 30 km" % (rmin - 6378.0), site="OrbitElements.perigee")
         if abs(float(oe.semi_major_axis) * XKMPER - (rmin + rmax) / 2) > 30.0:
             ctx.violation("summary_sma", case, float(oe.semi_major_axis) * XKMPER, "(rmin+rmax)/2 = %.3f km within 30 km" % ((rmin + rmax) / 2), site="OrbitElements.semi_major_axis")
+    # the strong-drag corner of the domain and its control, then long time arrays (after everything above: the random stream of
+    # the sweeps above is what it was)
+    drag_corner(ctx, drv, ctx.size(110, 2500), (220.0, 300.0), "drag_corner")
+    drag_corner(ctx, drv, ctx.size(40, 800), (300.0, 900.0), "drag_control")
+    long_arrays(ctx)
+
+
+# ------------------------------------------------------------------------------------------------------------------
+# The strong-drag corner of the quantified domain: near-circular, perigee 220-300 km (accepted: >= 220 km), |B*| at the top of
+# the allowed range (0.0015 ... 0.003, both signs), 5 ... 7 days from the epoch (both directions).  There the drag series
+# (c1 t ... t^5) dominate: the semi-major axis moves by per cents, and the series that advances the mean longitude must stay
+# the time integral of the mean motion that belongs to that semi-major axis, or the velocity stops being the derivative of the
+# position.  `drag_control` is the same family at perigee 300-900 km.
+#
+# Readings (DESIGN section 7: the reading that demands least), the same as for the distance band above:
+#  * "-mu/2a": a is the semi-major axis of the orbit summary OR the published model's own a(t) at that time (a(t)/a0 from the
+#    driver's transcription of the report, not from pyorbital).  With the epoch value alone the unchanged code leaves the 1 %
+#    as soon as drag has moved a by 1 % (counted as `<family>_energy_epoch_a_beyond_1pct`, reported, not a verdict).
+#  * the life time of the modelled orbit: an instant counts as within it when the published model's semi-major axis stays
+#    100 km above the earth's surface (a - 1 >= 100 km) at that instant AND at every point of a 3-hour grid between the epoch
+#    and it.  Below that the orbit has re-entered in every physical sense, although SGP4 goes on answering until a < 1 earth
+#    radius (C13), and BEYOND an interval in which the model declares the orbit decayed its power series in t have diverged
+#    (tempa = 1 - c1 t - d2 t^2 - d3 t^3 - d4 t^4 has gone through zero, a = a0 tempa^2 comes back: answers re-appear, e.g. at
+#    7 days BEFORE the epoch of a perigee-221-km set with B* = +0.0029, after refusals from 3 to 6.5 days before it).
+#    Outside the life time the published series themselves lose the 0.15 % (unchanged code: 0.15-0.21 % just before the
+#    decay, hundreds of per cent beyond it; within the life time 0.11 %).  The clause is judged there as everywhere; a
+#    violation there has the kind `velocity_vs_derivative_near_decay`, which is the recorded known finding K-C20-NEAR-DECAY
+#    (pyorbital follows the published model exactly; not repairable within SGP4).  All other clauses are judged everywhere.
+KARMAN_KM = 100.0
+TRACK_STEP_US = 3 * 3600 * 10 ** 6
+
+
+def _mm_for_perigee(perigee_km, ecc, incl):
+    """Printed mean motion (rev/day) whose Brouwer perigee height (own transcription, tlegen.brouwer) is perigee_km."""
+    lo, hi = 8.0, 17.5
+    for _ in range(60):
+        mid = 0.5 * (lo + hi)
+        if tlegen.brouwer(mid, ecc, incl)[0] > perigee_km:
+            lo = mid
+        else:
+            hi = mid
+    return 0.5 * (lo + hi)
+
+
+def gen_drag_corner(ctx, n, perigee_range):
+    rng = ctx.rng
+    day = 86400 * 10 ** 6
+    out = []
+    for _ in range(n):
+        per = rng.uniform(*perigee_range)
+        e7 = rng.choice([rng.randrange(0, 100001), rng.randrange(0, 100001), rng.randrange(0, 20001), 1])
+        incl = rng.choice([rng.uniform(0.5, 179.5), rng.uniform(0.5, 179.5), 51.6, 98.0, 28.5, 65.0, 90.0])
+        mm = _mm_for_perigee(per, e7 / 1e7, incl)
+        sign = rng.choice([" ", "-", "+", "-"])
+        if rng.random() < 0.8:
+            bs = sign + "%05d" % rng.randrange(15000, 30001) + "-2"
+        else:
+            bs = sign + "0%04d" % rng.randrange(1500, 3001) + "-1"      # the same range with a leading zero in the mantissa
+        try:
+            _, l1, l2 = tlegen.random_tle(rng, "leo", overrides={"bstar": bs, "incl": "%8.4f" % incl, "ecc": "%07d" % e7,
+                                                                  "mmotion": "%11.8f" % mm})
+        except Exception:  # noqa
+            continue
+        uss = []
+        for k in range(ctx.size(6, 8)):
+            if k == 0:
+                us = rng.randrange(-7 * day, 7 * day + 1)
+            else:
+                us = rng.choice([-1, 1]) * rng.choice([rng.randrange(5 * day, 7 * day + 1), rng.randrange(5 * day, 7 * day + 1),
+                                                        rng.randrange(5 * day, 7 * day + 1), 7 * day])
+            uss.append(us)
+        out.append((l1, l2, uss))
+    return out
+
+
+def _model_secular(drv, tle, uss):
+    """{us: (a(t)/a0, e(t), lowest a - 1 in km on the 3-hour grid from the epoch to us, us included)} of the published model
+    (Spec.Str3 through the driver); {} when it cannot be had."""
+    try:
+        grid = []
+        for u in uss:
+            k = max(1, -(-abs(u) // TRACK_STEP_US))
+            grid.append([u * j // k for j in range(1, k)] + [u])
+        flat = [g for gs in grid for g in gs]
+        outm = drv.run(["str3 " + " ".join(lib.f2h(x) for x in sgp4io.tle_nums(tle)) + "".join(" " + lib.f2h(g / 60e6) for g in flat)])[0]
+        steps = outm.split(" | ")[1:]
+        if len(steps) != len(flat):
+            return {}
+        sec, at = {}, 0
+        for u, gs in zip(uss, grid):
+            toks = [st.split() for st in steps[at:at + len(gs)]]
+            at += len(gs)
+            alts = [(lib.h2f(tk[8]) - 1.0) * XKMPER for tk in toks]
+            low = min(alts) if all(math.isfinite(x) for x in alts) else float("-inf")
+            sec[u] = (lib.h2f(toks[-1][6]), lib.h2f(toks[-1][9]), low)
+        return sec
+    except Exception:  # noqa
+        return {}
+
+
+def _drag_instant(o, l2, us, ratio, e_t, low_km):
+    """Every state clause for one instant with the readings above.  Returns (findings, measures), findings = [(kind, observed,
+    required, site)]; None when the implementation refuses the instant (decay: C13)."""
+    a_km = float(o.orbit_elements.semi_major_axis) * XKMPER
+    ecc = float(o.tle.excentricity)
+    t = o.tle.epoch + np.timedelta64(us, "us")
+    try:
+        p, v = o.get_position(t, normalize=False)
+        h = np.timedelta64(1, "s")
+        p1, _ = o.get_position(t + h, normalize=False)
+        p0, _ = o.get_position(t - h, normalize=False)
+    except Exception:  # noqa
+        return None
+    p, v, p1, p0 = (np.asarray(x, dtype=float) for x in (p, v, p1, p0))
+    out = []
+    speed = float(np.linalg.norm(v))
+    r = float(np.linalg.norm(p))
+    with np.errstate(all="ignore"):
+        dv = float(np.linalg.norm((p1 - p0) / 2.0 - v)) / speed if speed > 0 else float("nan")
+    judged = low_km >= KARMAN_KM
+    if not (dv <= 0.0015):
+        # judged everywhere; where the modelled orbit has come within 100 km of the surface on the way (or has gone through
+        # its decay) the violation carries its own kind, which the known finding K-C20-NEAR-DECAY lists
+        out.append(("velocity_vs_derivative" if judged else "velocity_vs_derivative_near_decay",
+                    {"v": list(v), "dpdt": list((p1 - p0) / 2.0), "rel": dv, "model_a_ratio": ratio, "model_low_km": low_km},
+                    "<= 0.15 %% of the speed (the model's a comes down to %.1f km above the surface between the epoch and this time)" % low_km,
+                    "Orbital.get_position"))
+    rp, ra = a_km * (1 - ecc), a_km * (1 + ecc)
+    rp_t = min(rp, a_km * ratio * (1 - max(e_t, 0.0)))
+    ra_t = max(ra, a_km * ratio * (1 + max(e_t, 0.0)))
+    if not (rp_t - 40.0 <= r <= ra_t + 40.0):
+        out.append(("distance_band", r, "[%.3f, %.3f] km (perigee/apogee radii of the epoch and of the model's a(t), e(t), +-40 km)" % (
+            rp_t - 40, ra_t + 40), "Orbital.get_position"))
+    with np.errstate(all="ignore"):
+        hvec = np.cross(p, v)
+        cz = float(hvec[2] / np.linalg.norm(hvec))
+    inc = math.degrees(math.acos(max(-1.0, min(1.0, cz)))) if math.isfinite(cz) else float("nan")
+    tle_incl = float(l2[8:16])
+    if not (abs(inc - tle_incl) <= 0.05):
+        out.append(("plane_inclination", inc, "TLE inclination %.4f within 0.05 deg" % tle_incl, "Orbital.get_position"))
+    energy = speed ** 2 / 2 - MU / r if r > 0 else float("nan")
+    ref0, ref_t = -MU / (2 * a_km), -MU / (2 * a_km * ratio)
+    de0, de_t = abs(energy - ref0) / abs(ref0), abs(energy - ref_t) / abs(ref_t)
+    if not (de0 <= 0.01 or de_t <= 0.01):
+        out.append(("energy", energy, "%.6f (summary a) or %.6f (the model's a(t)) within 1 %%" % (ref0, ref_t), "Orbital.get_position"))
+    return out, {"dv": dv, "de0": de0, "de_t": de_t, "judged": judged, "model_low_km": low_km}
+
+
+def drag_corner(ctx, drv, n, perigee_range, family):
+    from pyorbital import orbital
+    if drv is None:
+        ctx.count(family + "_skipped_no_model")
+        return
+    worst = {"dv": 0.0, "dv_unjudged": 0.0, "de0": 0.0, "de_t": 0.0}
+    for (l1, l2, uss) in gen_drag_corner(ctx, n, perigee_range):
+        try:
+            o = orbital.Orbital("x", line1=l1, line2=l2)
+            o.get_position(o.tle.epoch)
+        except Exception:  # noqa  (not accepted: perigee a hair below 220 km in pyorbital's own recovery)
+            ctx.count(family + "_not_accepted")
+            continue
+        sec = _model_secular(drv, o.tle, uss)
+        for us in uss:
+            if us not in sec or not all(math.isfinite(x) for x in sec[us][:2]) or not sec[us][0] > 0:
+                ctx.count(family + "_no_model_state")
+                continue
+            ratio, e_t, low_km = sec[us]
+            res = _drag_instant(o, l2, us, ratio, e_t, low_km)
+            if res is None:
+                ctx.count("oracle_decay_skipped")
+                continue
+            found, ms = res
+            ctx.count("eval_oracle_" + family)
+            ctx.distinct((l1, us / 60e6))
+            if ms["judged"]:
+                worst["dv"] = max(worst["dv"], ms["dv"])
+            else:
+                ctx.count(family + "_outside_lifetime")
+                worst["dv_unjudged"] = max(worst["dv_unjudged"], ms["dv"])
+                if not ms["dv"] <= 0.0015:
+                    ctx.count(family + "_outside_lifetime_dv_beyond")
+            worst["de0"] = max(worst["de0"], ms["de0"])
+            worst["de_t"] = max(worst["de_t"], ms["de_t"])
+            if ms["de0"] > 0.01:
+                ctx.count(family + "_energy_epoch_a_beyond_1pct")
+            case = {"line1": l1, "line2": l2, "minutes": us / 60e6, "us": us, "family": family, "model_a_ratio": ratio, "model_e": e_t, "model_low_km": low_km}
+            for (kind, obs, req, site) in found:
+                ctx.violation(kind, case, obs, req, site=site)
+    ctx.note("%s: worst |v - dp/dt|/|v| = %.3g where judged (%.3g outside the modelled orbit's life time, a - 1 >= %g km from the epoch on: "
+             "%d instants, %d of them beyond 0.15 %%); energy vs summary a %.3g (%d instants beyond 1 %%), vs the model's a(t) %.3g" % (
+                 family, worst["dv"], worst["dv_unjudged"], KARMAN_KM, ctx.counts.get(family + "_outside_lifetime", 0),
+                 ctx.counts.get(family + "_outside_lifetime_dv_beyond", 0), worst["de0"],
+                 ctx.counts.get(family + "_energy_epoch_a_beyond_1pct", 0), worst["de_t"]))
+
+
+# ------------------------------------------------------------------------------------------------------------------
+# Long time arrays.  "For every ... time": a time is a time whether it travels alone or as one element of a long series (one
+# time per scan line / pixel).  Every element of the returned series is judged by the same clauses, vectorised; the
+# velocity clause on the series' own grid (central difference of the neighbouring elements, with the truncation term of the
+# stencil granted on top of the 0.15 %), and at the head, the tail and around multiples of the power of two the length was
+# built on, against positions from SCALAR calls a quarter of a second before and after the element's time.
+# The element sets have negligible drag (|B*| < 1e-5), so that the model's radii are those of the epoch.
+def gen_array_tles(ctx, n):
+    rng = ctx.rng
+    out = []
+    tries = 0
+    while len(out) < n and tries < 50 * n:
+        tries += 1
+        bs = rng.choice([" ", "-", "+"]) + "%05d" % rng.randrange(0, 100000) + rng.choice(["-5", "-6", "-7"])
+        f, a, b = tlegen.random_tle(rng, rng.choice(["near", "leo"]), overrides={"bstar": bs})
+        if int(f["ecc"]) * 1e-7 > 0.4:
+            continue
+        out.append((a, b))
+    return out
+
+
+def gen_array_specs(ctx):
+    """Lengths m * 2^k + d for every k = 12 ... 18 (d = +1 once per k, and once a d out of -1, 0, +2), plus odd lengths."""
+    rng = ctx.rng
+    cap = ctx.size(330000, 1100000)
+    day = 86400 * 10 ** 6
+    specs = []
+
+    def span():
+        r = rng.random()
+        if r < 0.5:
+            a, b = -7 * day, 7 * day                 # both end points of the +-7 days
+        elif r < 0.7:
+            a, b = rng.choice([(-7 * day, rng.randrange(-6 * day, 7 * day)), (rng.randrange(-7 * day, 6 * day), 7 * day)])
+        else:
+            a = rng.randrange(-7 * day, 7 * day - 3600 * 10 ** 6)
+            b = rng.randrange(a + 3600 * 10 ** 6, 7 * day + 1)
+        if rng.random() < 0.25:
+            a, b = b, a                               # a descending series
+        return a, b
+
+    def shape_of(n, flat):
+        if flat:
+            return [n]
+        divs = [d for d in (2, 3, 4, 5, 7, 16, 257) if n % d == 0]
+        if divs and rng.random() < 0.7:
+            d = rng.choice(divs)
+            return rng.choice([[d, n // d], [n // d, d]])
+        return rng.choice([[1, n], [n, 1]])
+
+    for _ in range(ctx.size(1, 3)):
+        for k in range(12, 19):
+            for d in (1, rng.choice([-1, 0, 2])):
+                mmax = max(1, min(6, (cap - 2) // 2 ** k))
+                n = rng.randrange(1, mmax + 1) * 2 ** k + d
+                a, b = span()
+                specs.append({"n": n, "shape": shape_of(n, d == 1 or rng.random() < 0.35), "start_us": a, "stop_us": b, "block": 2 ** k})
+        for _ in range(2):                           # 2-D: every row (or column) one beyond a multiple of the power of two
+            k = rng.randrange(12, 18)
+            cols = rng.randrange(1, 3) * 2 ** k + 1
+            rows = rng.choice([2, 3, 5])
+            a, b = span()
+            specs.append({"n": rows * cols, "shape": rng.choice([[rows, cols], [cols, rows]]), "start_us": a, "stop_us": b, "block": cols})
+        for n in (100003, 300001, rng.randrange(66000, cap), rng.randrange(66000, cap)):
+            a, b = span()
+            specs.append({"n": n, "shape": shape_of(n, rng.random() < 0.4), "start_us": a, "stop_us": b,
+                          "block": rng.choice([2 ** 16, 10 ** 5, 2 ** 15])})
+    return specs
+
+
+def _array_times(o, spec):
+    us = np.linspace(spec["start_us"], spec["stop_us"], spec["n"]).round().astype("int64")
+    return us, (o.tle.epoch + us.astype("timedelta64[us]")).reshape(spec["shape"])
+
+
+def _array_probes(spec, extra=()):
+    n, blk = spec["n"], spec["block"]
+    idx = {0, 1, n - 2, n - 1}
+    mults = list(range(blk, n + 2, blk))
+    for m in mults[:2] + mults[-2:]:
+        idx.update((m - 1, m, m + 1))
+    idx.update(extra)
+    return sorted(i for i in idx if 0 <= i < n)
+
+
+H_PROBE_US = 250000
+
+
+def _array_findings(o, l2, spec, probes):
+    """All clauses on every element of one long series: ([(kind, index, observed, required)], elements judged), the first
+    offending element per clause; raises what get_position raises."""
+    us, times = _array_times(o, spec)
+    n = spec["n"]
+    pos, vel = o.get_position(times, normalize=False)
+    try:
+        P = np.asarray(pos, dtype=float).reshape(3, n)
+        V = np.asarray(vel, dtype=float).reshape(3, n)
+    except Exception:  # noqa
+        return [("distance_band", None, "position of shape %r, velocity of shape %r for %d times" % (np.shape(pos), np.shape(vel), n),
+                 "one position and one velocity for every time")], 0
+    a_km = float(o.orbit_elements.semi_major_axis) * XKMPER
+    ecc = float(o.tle.excentricity)
+    rp, ra = a_km * (1 - ecc), a_km * (1 + ecc)
+    out = []
+    with np.errstate(all="ignore"):
+        r = np.sqrt((P * P).sum(axis=0))
+        sp = np.sqrt((V * V).sum(axis=0))
+        bad = ~((r >= rp - 40.0) & (r <= ra + 40.0))
+        if bad.any():
+            i = int(np.argmax(bad))
+            out.append(("distance_band", i, {"r_km": float(r[i]), "pos": P[:, i].tolist(), "vel": V[:, i].tolist(), "elements_outside": int(bad.sum())},
+                        "[%.3f, %.3f] km (perigee/apogee radii +-40 km) for every element" % (rp - 40, ra + 40)))
+        mp, ma = getattr(o._sgdp4, "perigee", None), getattr(o._sgdp4, "apogee", None)
+        if mp is not None and ma is not None and not out:
+            lo, hi = min(float(mp) + XKMPER, rp) - 40.0, max(float(ma) + XKMPER, ra) + 40.0
+            bad = ~((r >= lo) & (r <= hi))
+            if bad.any():
+                i = int(np.argmax(bad))
+                out.append(("distance_band_model", i, {"r_km": float(r[i]), "elements_outside": int(bad.sum())},
+                            "[%.3f, %.3f] km (the model's perigee/apogee heights + %.3f, +-40 km)" % (lo, hi, XKMPER)))
+        hx = P[1] * V[2] - P[2] * V[1]
+        hy = P[2] * V[0] - P[0] * V[2]
+        hz = P[0] * V[1] - P[1] * V[0]
+        inc = np.degrees(np.arccos(np.clip(hz / np.sqrt(hx * hx + hy * hy + hz * hz), -1.0, 1.0)))
+        tle_incl = float(l2[8:16])
+        bad = ~(np.abs(inc - tle_incl) <= 0.05)
+        if bad.any():
+            i = int(np.argmax(bad))
+            out.append(("plane_inclination", i, {"inclination": float(inc[i]), "elements_outside": int(bad.sum())},
+                        "TLE inclination %.4f within 0.05 deg for every element" % tle_incl))
+        energy = sp * sp / 2 - MU / r
+        ref = -MU / (2 * a_km)
+        bad = ~(np.abs(energy - ref) / abs(ref) <= 0.01)
+        if bad.any():
+            i = int(np.argmax(bad))
+            out.append(("energy", i, {"energy": float(energy[i]), "elements_outside": int(bad.sum())}, "%.6f within 1 %% for every element" % ref))
+        # the series' own grid: (p[i+1] - p[i-1]) / (t[i+1] - t[i-1]) against v[i]; the stencil's truncation term (dt^2 / 6 times
+        # the third derivative of the two-body motion through (p, v); uneven steps: half their difference times the acceleration),
+        # + 10 %, is granted on top of the 0.15 %; elements whose grant exceeds 0.05 % are left to the other clauses
+        if n >= 3:
+            dt = (us[2:] - us[:-2]).astype(float) / 1e6
+            ok_dt = dt != 0
+            d = (P[:, 2:] - P[:, :-2]) / np.where(ok_dt, dt, 1.0)
+            Pm, Vm, rm, sm = P[:, 1:-1], V[:, 1:-1], r[1:-1], sp[1:-1]
+            h1 = np.abs((us[2:] - us[1:-1]).astype(float)) / 1e6
+            h0 = np.abs((us[1:-1] - us[:-2]).astype(float)) / 1e6
+            pv = (Pm * Vm).sum(axis=0)
+            j3 = -MU * Vm / rm ** 3 + 3 * MU * pv * Pm / rm ** 5
+            grant = 1.1 * (np.maximum(h1, h0) ** 2 / 6.0 * np.sqrt((j3 * j3).sum(axis=0)) + 0.5 * np.abs(h1 - h0) * MU / rm ** 2) / sm
+            judged = ok_dt & (grant <= 5e-4)
+            rel = np.sqrt(((d - Vm) ** 2).sum(axis=0)) / sm
+            bad = judged & ~(rel <= 0.0015 + grant)
+            if bad.any():
+                i = int(np.argmax(bad))
+                out.append(("velocity_vs_derivative", i + 1, {"rel": float(rel[i]), "granted_truncation": float(grant[i]),
+                                                               "elements_outside": int(bad.sum()), "probe": "own grid"},
+                            "<= 0.15 % of the speed (central difference of the neighbouring elements)"))
+    # single elements against scalar calls a quarter of a second before and after
+    hs = H_PROBE_US / 1e6
+    tf = times.reshape(n)
+    for i in probes:
+        try:
+            pp = np.asarray(o.get_position(tf[i] + np.timedelta64(H_PROBE_US, "us"), normalize=False)[0], dtype=float)
+            pm = np.asarray(o.get_position(tf[i] - np.timedelta64(H_PROBE_US, "us"), normalize=False)[0], dtype=float)
+        except Exception:  # noqa
+            continue
+        cen = (pp - pm) / (2 * hs)
+        spd = float(np.linalg.norm(cen))
+        grant = 1.1 * 0.5 * hs * MU / float(np.linalg.norm(pp)) ** 2       # one-sided stencil: (h / 2) |acceleration|
+        with np.errstate(all="ignore"):
+            e_c = float(np.linalg.norm(cen - V[:, i]))
+            e_f = float(np.linalg.norm((pp - P[:, i]) / hs - V[:, i]))
+            e_b = float(np.linalg.norm((P[:, i] - pm) / hs - V[:, i]))
+        if not (e_c <= 0.0015 * spd and e_f <= 0.0015 * spd + grant and e_b <= 0.0015 * spd + grant):
+            out.append(("velocity_vs_derivative", i, {"element_pos": P[:, i].tolist(), "element_vel": V[:, i].tolist(), "scalar_pos_after": pp.tolist(),
+                                                      "scalar_pos_before": pm.tolist(), "rel_central": e_c / spd, "rel_forward": e_f / spd,
+                                                      "rel_backward": e_b / spd, "probe": "scalar calls +-0.25 s"},
+                        "<= 0.15 % of the speed: the element's velocity against (p(t+h) - p(t-h)) / 2h, (p(t+h) - element) / h and "
+                        "(element - p(t-h)) / h with p(t+-h) from scalar calls, h = 0.25 s"))
+            break
+    return out, n
+
+
+def long_arrays(ctx):
+    from pyorbital import orbital
+    specs = gen_array_specs(ctx)
+    tles = gen_array_tles(ctx, len(specs))
+    for spec, (l1, l2) in zip(specs, tles):
+        try:
+            o = orbital.Orbital("x", line1=l1, line2=l2)
+            for us in (0, spec["start_us"], spec["stop_us"]):
+                o.get_position(o.tle.epoch + np.timedelta64(us, "us"))
+        except Exception:  # noqa
+            ctx.count("array_tle_skipped")
+            continue
+        probes = _array_probes(spec, [ctx.rng.randrange(spec["n"]) for _ in range(6)])
+        case = {"line1": l1, "line2": l2, "array": spec}
+        try:
+            found, n = _array_findings(o, l2, spec, probes)
+        except Exception as ex:  # noqa  (a refusal is C13's subject)
+            ctx.count("array_call_raised")
+            ctx.note("array call raised %s: %s for %r" % (type(ex).__name__, ex, case))
+            continue
+        ctx.count("eval_oracle_array_elements", n)
+        ctx.count("oracle_arrays")
+        ctx.bump("array_shapes", "%d-D" % len(spec["shape"]))
+        ctx.distinct((l1, "array", spec["n"], tuple(spec["shape"]), spec["start_us"], spec["stop_us"]))
+        for (kind, i, obs, req) in found:
+            ctx.violation(kind, dict(case, index=i), obs, req, site="Orbital.get_position(array of %d times, shape %r)" % (spec["n"], spec["shape"]))
 
 
 def match_known(entry, v):
@@ -260,6 +674,11 @@ def match_known(entry, v):
             return float(v["case"]["line2"][8:16]) >= m["min_inclination_deg"]
         except (KeyError, ValueError):
             return False
+    if "max_model_low_km" in m:
+        try:
+            return float(v["case"]["model_low_km"]) < m["max_model_low_km"]
+        except (KeyError, ValueError, TypeError):
+            return False
     return False
 
 
@@ -267,6 +686,33 @@ def replay(ctx, case):
     from pyorbital import orbital
     inp = case.get("input", case)
     o = orbital.Orbital("x", line1=inp["line1"], line2=inp["line2"])
+    if "array" in inp:
+        spec = inp["array"]
+        extra = [inp["index"]] if isinstance(inp.get("index"), int) else []
+        found, _ = _array_findings(o, inp["line2"], spec, _array_probes(spec, extra))
+        for (kind, i, obs, req) in found:
+            print(kind, "element", i, "observed", obs, "required", req)
+        print("violated" if found else "holds")
+        return 1 if found else 0
+    if inp.get("family"):
+        us = int(inp["us"]) if "us" in inp else int(round(inp["minutes"] * 60e6))
+        # the published model's a(t)/a0, e(t) and lowest a - 1 as recorded ...
+        ratio, e_t, low_km = inp["model_a_ratio"], inp["model_e"], inp["model_low_km"]
+        try:
+            sec = _model_secular(ctx.driver(), o.tle, [us])     # ... or, when the driver is at hand, as it gives them now
+            if us in sec and all(math.isfinite(x) for x in sec[us][:2]) and sec[us][0] > 0:
+                ratio, e_t, low_km = sec[us]
+        except Exception:  # noqa
+            pass
+        res = _drag_instant(o, inp["line2"], us, float(ratio), float(e_t), float(low_km))
+        if res is None:
+            print("the instant is refused (decay)")
+            return 0
+        for (kind, obs, req, site) in res[0]:
+            print(kind, "observed", obs, "required", req)
+        print(res[1])
+        print("violated" if res[0] else "holds")
+        return 1 if res[0] else 0
     if "minutes" in inp:
         t = o.tle.epoch + np.timedelta64(int(round(inp["minutes"] * 60e6)), "us")
         p, v = o.get_position(t, normalize=False)
